@@ -68,6 +68,12 @@ impl std::fmt::Display for Version {
 
 impl SerializableType for Version {
     fn serialize<O: DataOutput>(&self, output: &mut O) -> Result<()> {
+        // the packed format 0xMMmmpppp has 8 bits for major and minor
+        if self.major > 0xFF || self.minor > 0xFF {
+            return Err(ZiporaError::invalid_data(format!(
+                "Version {} does not fit the packed format (major/minor > 255)", self
+            )));
+        }
         output.write_u32(self.to_u32())
     }
     
